@@ -429,6 +429,11 @@ class Unit:
         text = rw.attrs(text)
         text = rw.apply_maps(text, self.maps, "type")
         text = re.sub(r"\bpub\s*\(\s*(crate|super)\s*\)", "pub", text)
+        if it.kind == "struct" and it.body_open is not None:
+            def mkpub(mm):
+                rw.count("R5 private field made pub (visibility only)")
+                return mm.group(1) + "pub " + mm.group(2)
+            text = re.sub(r"(?m)^(\s*)([a-z_][A-Za-z0-9_]*\s*:)", mkpub, text)
         drops = [d for d in str(opts.get("drop", "")).split(",") if d]
         for d in drops:
             pat = re.compile(r"(?m)^\s*(pub\s+)?%s\s*:[^\n]*,\s*$" % re.escape(d))
@@ -560,6 +565,43 @@ class Unit:
             if nsub == 0:
                 raise ExtractError("anchor lost: //@sub /%s/ in %s" % (rx.pattern, name))
             rw.count("MANUAL sub /%s/ => %s" % (rx.pattern, repl), nsub)
+        # R13: `for &PAT in EXPR {` -> `for vx_ref in EXPR { let PAT = *vx_ref;` (Verus has no reference patterns)
+        while True:
+            m13 = re.search(r"\bfor\s*&\s*", body)
+            if not m13:
+                break
+            toks = tokenize(body[m13.end():])
+            # pattern = up to the `in` keyword at depth 0
+            depth = 0
+            kin = None
+            for kk, t in enumerate(toks):
+                if t.kind == "punct" and t.text in OPEN:
+                    depth += 1
+                elif t.kind == "punct" and t.text in CLOSE:
+                    depth -= 1
+                elif t.kind == "ident" and t.text == "in" and depth == 0:
+                    kin = kk
+                    break
+            if kin is None:
+                raise ExtractError("R13: cannot find `in`")
+            pat = body[m13.end():m13.end() + toks[kin].start].strip()
+            depth = 0
+            kb = None
+            for kk in range(kin + 1, len(toks)):
+                t = toks[kk]
+                if t.kind == "punct" and t.text in "([":
+                    depth += 1
+                elif t.kind == "punct" and t.text in ")]":
+                    depth -= 1
+                elif t.kind == "punct" and t.text == "{" and depth == 0:
+                    kb = kk
+                    break
+            if kb is None:
+                raise ExtractError("R13: cannot find loop body")
+            bo = m13.end() + toks[kb].end
+            body = (body[:m13.start()] + "for vx_ref in " + body[m13.end() + toks[kin].end:bo]
+                    + " let %s = *vx_ref;" % pat + body[bo:])
+            rw.count("R13 `for &PAT in` -> `for vx_ref in` + `let PAT = *vx_ref`")
         inserts = []   # (offset, [ (line, org) ])
         if mut_self:
             body = re.sub(r"\bself\b", "vx_self", body)
